@@ -190,7 +190,11 @@ R_ITER = [
          r'for(ptrdiff_t a = A_ptr[\1]; a < A_ptr[(\1) + 1]; ++a)', '+', why='R-iter row_iterator -> index loop', early=True),
     Rule(r'\ba\.value\(\)', 'A_val[a]', '+', why='R-iter'),
     Rule(r'\ba\.col\(\)', 'A_col[a]', '+', why='R-iter'),
-    Rule(r'^\s*typedef typename value_type<Vector\d>::type V;\n', '', 1, why='V is bound by the value model', early=True),
+    # the accumulator type V: its VALUES are bound by the value model; WHICH type it is (the precision of the row sum in a
+    # mixed-precision instantiation) is recorded as a precision rank in the ghost g_acc_tt and judged by the contract
+    Rule(r'^(\s*)typedef typename value_type<(\w+)>::type V;\n', r'\1g_acc_tt = TT_\2;\n', None, why='V = value type of <arg>: values by the value model, precision rank recorded', early=True),
+    Rule(r'^(\s*)typedef typename math::rhs_of<\s*typename value_type<(\w+)>::type\s*>::type V;\n', r'\1g_acc_tt = TT_\2;\n', None,
+         why='V = rhs_of<value type of <arg>>: same scalar precision as <arg>', early=True),
     Rule(r'rows\(A\)', 'A_nrows', 1, why='rows_impl<crs>::get = A.nrows'),
     Rule(r'sum \+= (?P<e>[^;]+);', r'sum = UFE(sum + \g<e>);', '+', why='compound assignment spelled out'),
 ]
@@ -202,6 +206,10 @@ MO_HDR = HDR + r'''
  * a definition (exists for every val, col, x), hence cannot make the precondition unsatisfiable.           */
 const V *g_fold;
 #define UFE(e) (e)
+/* precision ranks of the template arguments of a (possibly mixed-precision) instantiation: arbitrary, fixed (ghost inputs,
+ * never assigned); g_acc_tt is the rank of the type the row sum is accumulated in */
+int TT_Matrix, TT_Vector1, TT_Vector2, TT_Vector3, TT_Alpha, TT_Beta;
+int g_acc_tt;
 #define ZMAX 0x000fffffffffffffL
 #define FOLD_STEP(j) __CPROVER_assume(g_fold[(j) + 1] == UF_ADD(g_fold[j], UF_MUL(A_val[j], x[A_col[j]])))
 #define COL_OK(j) __CPROVER_assume(A_col[j] >= 0 && A_col[j] < (ptrdiff_t)x_n)
@@ -236,9 +244,9 @@ R_INST = [
 ]
 
 spmv = Unit(
-    name='builtin_spmv', props=['C07', 'C15', 'C10'],
+    name='builtin_spmv', props=['C07', 'C15', 'C10', 'C13'],
     functions=['backend::spmv_impl<Alpha, crs, Vec1, Beta, Vec2>::apply (matrix_ops.hpp, same block size)'],
-    desc='y = alpha A x + beta y, row by row: y[k] == alpha * fold_k + beta * y0[k] (beta == 0: old y not read), fold_k = sum of a_kj * x_j in row order',
+    desc='y = alpha A x + beta y, row by row: y[k] == alpha * fold_k + beta * y0[k] (beta == 0: old y not read), fold_k = sum of a_kj * x_j in row order; the row sum is accumulated in a type of at least the precision of y (mixed precision)',
     cuts={'body': Cut(MOPS, r'static void apply\(\s*Alpha alpha, const Matrix &A, const Vector1 &x, Beta beta, Vector2 &y\s*\)\s*(?=\{)', nth=0,
                       rules=R_ITER + R_INST,
                       uf=[UF(r'y\[i\] = (?P<e>[^;]+);', '+'), UF(r'UFE\((?P<e>[^()]*(?:\([^()]*\)[^()]*)*)\)', '+')],
@@ -255,7 +263,10 @@ __CPROVER_requires(__CPROVER_is_fresh(x, x_n * sizeof(V)) && __CPROVER_is_fresh(
 __CPROVER_requires(g_k < A_nrows && y[g_k] == g_yk)
 /* watched row: well-formed, and the fold starts from zero at the row start */
 __CPROVER_requires(0 <= A_ptr[g_k] && A_ptr[g_k] <= A_ptr[g_k + 1] && A_ptr[g_k + 1] <= nnz && g_fold[A_ptr[g_k]] == MATH_zero(V))
-__CPROVER_assigns(__CPROVER_object_whole(y))
+__CPROVER_assigns(__CPROVER_object_whole(y), g_acc_tt)
+/* the defining formula is evaluated in the value type of the vectors: with a lower-precision matrix (single-precision
+ * preconditioner under a double-precision solver) the row sum must not be rounded to the matrix's precision */
+__CPROVER_ensures(g_acc_tt >= TT_Vector2)
 __CPROVER_ensures(math_is_zero(beta) ? y[g_k] == UF_MUL(alpha, g_fold[A_ptr[g_k + 1]])
                                      : y[g_k] == UF_ADD(UF_MUL(alpha, g_fold[A_ptr[g_k + 1]]), UF_MUL(beta, g_yk)))
 {
@@ -269,9 +280,9 @@ void h_f_spmv(void) { V al, be; size_t n, xn; ptrdiff_t nnz; const ptrdiff_t *p,
 )
 
 residual = Unit(
-    name='builtin_residual', props=['C07', 'C15', 'C10'],
+    name='builtin_residual', props=['C07', 'C15', 'C10', 'C13'],
     functions=['backend::residual_impl<crs, Vec1, Vec2, Vec3>::apply (matrix_ops.hpp, same block size)'],
-    desc='res = rhs - A x, row by row: res[k] == rhs[k] - fold_k',
+    desc='res = rhs - A x, row by row: res[k] == rhs[k] - fold_k; the row sum is accumulated in a type of at least the precision of the result vector (mixed precision)',
     cuts={'body': Cut(MOPS, r'static void apply\(\s*Vector1 const &rhs,\s*Matrix  const &A,\s*Vector2 const &x,\s*Vector3       &res\s*\)\s*(?=\{)',
                       rules=R_ITER + R_INST,
                       uf=[UF(r'res\[i\] = (?P<e>[^;]+);', 1), UF(r'UFE\((?P<e>[^()]*(?:\([^()]*\)[^()]*)*)\)', 1)],
@@ -286,7 +297,8 @@ __CPROVER_requires(__CPROVER_is_fresh(A_ptr, (A_nrows + 1) * sizeof(ptrdiff_t)) 
 __CPROVER_requires(__CPROVER_is_fresh(x, x_n * sizeof(V)) && __CPROVER_is_fresh(rhs, A_nrows * sizeof(V)) && __CPROVER_is_fresh(res, A_nrows * sizeof(V)) && __CPROVER_is_fresh(g_fold, (nnz + 1) * sizeof(V)))
 __CPROVER_requires(g_k < A_nrows && rhs[g_k] == g_fk)
 __CPROVER_requires(0 <= A_ptr[g_k] && A_ptr[g_k] <= A_ptr[g_k + 1] && A_ptr[g_k + 1] <= nnz && g_fold[A_ptr[g_k]] == MATH_zero(V))
-__CPROVER_assigns(__CPROVER_object_whole(res))
+__CPROVER_assigns(__CPROVER_object_whole(res), g_acc_tt)
+__CPROVER_ensures(g_acc_tt >= TT_Vector3)   /* row sum accumulated at (at least) the precision of the result vector */
 __CPROVER_ensures(res[g_k] == UF_SUB(g_fk, g_fold[A_ptr[g_k + 1]]))
 {
   const V e_r = UF_SUB(g_fk, g_fold[A_ptr[g_k + 1]]);
